@@ -1,3 +1,4 @@
+import AquaVerif.Proofs.Run
 import AquaVerif.Proofs.Clock
 import AquaVerif.Proofs.ClockCalendar
 /-
@@ -82,5 +83,18 @@ planting date on or after the start date (`SeasonsSpec`). -/
 theorem seasons_consecutive_years_from_first_planting {sy sm sd ey em ed pm pd hm hd : Int} {r : Seasons}
     (h : seasonDates sy sm sd ey em ed pm pd hm hd = .ok r) :
     SeasonsSpec sy sm sd ey em ed pm pd hm hd r := seasonDates_spec h
+
+
+/-! ### real runs refine the clock model -/
+
+/-- **Run level.** Every run of the full model (`Model/Run.lean`: the actual day function
+`fullDay` producing the maturity / death flags) is a run of the clock state machine for the
+oracle induced by that day function — so every theorem of this file (and of C09, and the summary
+part of C06) holds for the full model, not only for the abstract clock. -/
+theorem full_model_refines_clock {α : Type} [Field α] [LinearOrder α] [IsStrictOrderedRing α]
+    {F : Fn α} {T : TrigFn α} {cfg : RunCfg α} {s : RunState α}
+    (hw : WF cfg.clock) (hi : InitOK cfg) (hr : RunReach F T cfg s) :
+    ∃ ev : Ev, Reach cfg.clock ev s.clockOf ∧ ∀ d ∈ s.daysRev, ev d.D.tsc = d.events :=
+  run_refines_clock hw hi hr
 
 end Aqua.C07
